@@ -76,7 +76,7 @@ VARIANTS = [
     X("C05", "C17-t4-3", "helper-writes-its-input", "eqsig/fns/average.py", "        out[i] = np.mean(values[max(i - half, 0):i + half + 1])", "        values[i] = np.mean(values[max(i - half, 0):i + half + 1])", "R-NOMUT"),
     X("C11", "C11-t4-2", "half-cycle-quarter", PK, "    n_cycs = 0.5 * np.arange(n_indices) + offset\n", "    n_cycs = 0.25 * np.arange(n_indices) + offset\n", "R-NCYC"),
     X("C11", "C11-t4-2", "first-not-reset", PK, "    n_cycs[:1] = 0.0  # counting always starts from zero at the first sample\n", "    n_cycs[:1] = 0.5  # counting always starts from zero at the first sample\n", "R-NCYC"),
-    X("C06", "C06-t4-3", "returned-grid-missing-two", F, "np.arange(points) / (2 * points * dt)", "np.arange(points) / (points * dt)", "R-FAS-TYPE"),
+    X("C06", "C06-t1-1", "grid-two-halves", "eqsig/single.py", "np.arange(n_half) / (n_fft * dt)", "np.arange(n_half) / (2 * n_half * dt)", "R-FAS-TYPE"),      # F15 on a twin's spelling
     X("C14", "C14-t4-3", "helper-floor", "eqsig/fns/time_step.py", "    return int(np.ceil(new_npts))  # a partially covered last step is kept", "    return int(np.floor(new_npts))  # a partially covered last step is kept", None),
     X("C19", "C19-t4-1", "shift-sign", TS, "        first = start_extras + shift  # column where the shifted copy of values starts", "        first = start_extras - shift  # column where the shifted copy of values starts", None),
 ]
